@@ -402,6 +402,11 @@ def binop(ev, op, a, b, node, fr):
         unit = _unit_mul(a, b, div=True)
     elif isinstance(op, ast.FloorDiv):
         r = sp.floor(x / y)
+        # (n - n % p) // p divides exactly
+        m_ = sp.expand(-x)
+        mods = [t for t in sp.Add.make_args(m_) if isinstance(t, sp.Mod) and t.args[1] == y]
+        if len(mods) == 1 and sp.expand(x + mods[0]) == mods[0].args[0] and getattr(y, "is_integer", False) and getattr(mods[0].args[0], "is_integer", False):
+            r = x / y
         kind = "number" if kind == "quantity" else kind
     elif isinstance(op, ast.Mod):
         r = sp.Mod(x, y)
@@ -587,6 +592,7 @@ def _ufunc_broadcast_shape(args):
     return tuple(reversed(out))
 
 
+_ARITH_UFUNCS = {"add": ast.Add(), "subtract": ast.Sub(), "multiply": ast.Mult(), "divide": ast.Div(), "true_divide": ast.Div()}
 BOOL_UFUNCS = {"less", "less_equal", "greater", "greater_equal", "equal", "not_equal", "logical_and", "logical_or", "logical_not", "logical_xor",
                "isfinite", "isnan", "isinf", "signbit", "isnat"}
 
@@ -950,6 +956,16 @@ def _num_getitem(ev, obj: Num, idx, fr, node):
 
 def slice_len(start, stop, step, n):
     """Symbolic length of range(*slice(start, stop, step).indices(n)); exact for concrete cases."""
+    # z[: n - n % p]: the stop n - Mod(n, p) lies in [0, n] for every n >= 0, p > 0 -- the length is the stop itself
+    try:
+        st_, sp_, se_ = sp.sympify(start), sp.sympify(stop), sp.sympify(step)
+        n_ = sp.sympify(n)
+        if st_ == NONE_S and se_ == NONE_S:
+            d_ = sp.expand(n_ - sp_)
+            if isinstance(d_, sp.Mod) and d_.args[0] == n_ and d_.args[1].is_positive and (n_.is_nonnegative or n_.is_positive):
+                return sp_
+    except Exception:
+        pass
     return F["SliceLen"](start, stop, step, n)
 
 
@@ -1028,8 +1044,7 @@ def val_getattr(ev, obj, name, fr, node):
         return obj.hattrs[name]
     if isinstance(obj, PolyV):
         if name in ("domain", "window"):
-            d_ = obj.domain if name == "domain" else obj.window
-            return NdArr((2,), [Num(d_[0], isfloat=True), Num(d_[1], isfloat=True)])      # an ndarray of two numbers
+            return obj.view_of(name)      # an ndarray of two numbers, the same object on every read
         if name == "coef":
             return NdArr((len(obj.coeffs),), [Num(c) for c in obj.coeffs])
         return BoundBuiltin(obj, name)
@@ -1278,6 +1293,12 @@ def call_method(ev, recv, name, args, kwargs, fr, node):
             return NONE
         if name == "copy":
             return ListV(recv.items)
+        if name == "sort" and not args:
+            recv.items[:] = h_sorted(ev, [ListV(list(recv.items))], kwargs, fr, node).items     # in place, stable, same key rules as sorted()
+            return NONE
+        if name == "reverse" and not args:
+            recv.items.reverse()
+            return NONE
         if name == "pop":
             return recv.items.pop(*(ev.concrete_int(a) for a in args))
         if name == "index":
@@ -3273,6 +3294,15 @@ def h_ndenumerate(ev, args, kwargs, fr, node):
     ev.unsupported(f"np.ndenumerate of {x!r}", node, fr)
 
 
+def h_ndindex(ev, args, kwargs, fr, node):
+    import itertools
+    shp = args[0].items if len(args) == 1 and isinstance(args[0], (TupleV, ListV)) else list(args)
+    dims = [ev.concrete_int(d_) for d_ in shp]
+    if any(d_ is None for d_ in dims):
+        ev.unsupported("np.ndindex over a symbolic shape", node, fr)
+    return ListV([TupleV([Num(sp.Integer(i)) for i in ix]) for ix in itertools.product(*[range(d_) for d_ in dims])])
+
+
 def h_cumsum(ev, args, kwargs, fr, node):
     x = args[0]
     items = ev.iterate(x, fr, node) if isinstance(x, (ListV, TupleV, NdArr)) else None
@@ -3532,8 +3562,32 @@ class PolyV(Val):
 
     def __init__(self, coeffs, domain=(-1, 1), window=(-1, 1)):
         self.coeffs = [sp.sympify(c) for c in coeffs]
+        self._views = {}          # "domain"/"window" -> the ndarray object handed out for it (writes through it reach the polynomial)
         self.domain = tuple(sp.sympify(d) for d in domain)
         self.window = tuple(sp.sympify(w) for w in window)
+
+    def _get(self, which):
+        v = self._views.get(which)
+        if v is not None:
+            return tuple(i.expr for i in v.items)
+        return self.__dict__["_" + which]
+
+    def _set(self, which, val):
+        self.__dict__["_" + which] = tuple(val)
+        self._views.pop(which, None)      # a newly assigned array: earlier views no longer belong to this polynomial
+
+    domain = property(lambda self: self._get("domain"), lambda self, v: self._set("domain", v))
+    window = property(lambda self: self._get("window"), lambda self, v: self._set("window", v))
+
+    def view_of(self, which):
+        """The ndarray object `p.domain` / `p.window`: the SAME object on every read, so that in-place arithmetic and out= writes
+        on it change the polynomial, as they do in NumPy."""
+        v = self._views.get(which)
+        if v is None:
+            d_ = self._get(which)
+            v = NdArr((2,), [Num(d_[0], isfloat=True), Num(d_[1], isfloat=True)])
+            self._views[which] = v
+        return v
 
     def expr(self, x=None):
         x = self.X if x is None else x
@@ -3669,7 +3723,7 @@ EXT = {
     "functools.reduce": lambda ev, a, k, fr, n: h_reduce(ev, a, k, fr, n),
     "numpy.finfo": lambda ev, a, k, fr, n: h_finfo(ev, a, k, fr, n),
     "numpy.squeeze": lambda ev, a, k, fr, n: h_squeeze(ev, a, k, fr, n), "numpy.ndenumerate": lambda ev, a, k, fr, n: h_ndenumerate(ev, a, k, fr, n),
-    "numpy.cumsum": lambda ev, a, k, fr, n: h_cumsum(ev, a, k, fr, n),
+    "numpy.cumsum": lambda ev, a, k, fr, n: h_cumsum(ev, a, k, fr, n), "numpy.ndindex": lambda ev, a, k, fr, n: h_ndindex(ev, a, k, fr, n),
     "dataclasses.asdict": h_asdict, "operator.itemgetter": h_itemgetter, "operator.attrgetter": h_attrgetter,
     "operator.or_": lambda ev, a, k, fr, n: binop(ev, ast.BitOr(), a[0], a[1], n, fr),
     "operator.and_": lambda ev, a, k, fr, n: binop(ev, ast.BitAnd(), a[0], a[1], n, fr),
@@ -3745,6 +3799,14 @@ def call_ext(ev, fn: ExtV, args, kwargs, fr, node):
                     if rd is not None:
                         given.dtype = rd
                     ev.trace.append(("dask-out-rebound", name, given))
+                elif isinstance(given, NdArr) and name in _ARITH_UFUNCS and len(args) == 2 and int(nout) == 1:
+                    # an explicit array as out=: the elementwise result is stored into that very array (explicit arrays model
+                    # their own stores)
+                    shape_, pairs_ = nd_pairs(ev, args[0], args[1], node, fr)
+                    if tuple(shape_) != tuple(given.shape):
+                        from .symeval import Raised
+                        raise Raised("ValueError", node, "non-broadcastable output operand")
+                    given.items[:] = [binop(ev, _ARITH_UFUNCS[name], x_, y_, node, fr) for x_, y_ in pairs_]
                 elif isinstance(given, Num) and given.tag != "unit":
                     # NumPy writes the result into the given array and hands that very array back: same object, new contents
                     # (values are immutable in this evaluator: the written array is a new value that replaces the old one in
